@@ -30,4 +30,7 @@ let mode_glob args =
 let () =
   match Array.to_list Sys.argv with
   | _ :: "glob" :: args -> mode_glob args
+  | _ :: "parse" :: args -> M_codec.mode_parse args
+  | _ :: "encode" :: args -> M_codec.mode_encode args
+  | _ :: "ctor" :: args -> M_codec.mode_ctor args
   | _ -> prerr_endline "usage: modelrun <mode> [args]"; exit 2
